@@ -1,5 +1,2010 @@
-use crate::Ctx;
+//! C18 - server-info parsing is total; merging parts is order-free and idempotent.
+//!
+//! A model server in this file renders, for a generated server, the datagrams of all thirteen
+//! response kinds (master list/count/token responses and the seven server-info layouts), the
+//! multi-part ones (legacy 64-player `dtsf`, extended `iext` + `iex+`) split into parts.
+//!
+//! Oracles
+//! * totality: `parse_response` and every `Info*Response::parse` return a value or `None`, no panic;
+//!   a returned value lies inside the datagram, satisfies the count sanity check the parser documents
+//!   (`0 <= num_players <= num_clients <= max_clients <= per-version maximum`, ...) and hands its
+//!   clients out sorted.
+//! * merging: for every schedule (permutation, repeats, parts of another token mixed in) the partial
+//!   info reports complete exactly when every part has been merged at least once, and the complete
+//!   info equals the model (header of the main packet, every client once, sorted) - which is also what
+//!   the in-order duplicate-free merge gives. What `merge` answers (Ok / which error) for a repeated or
+//!   foreign part is not judged, only the state it leaves; after `take_info` only "no panic" is checked
+//!   (the emptied partial reports a complete default info, nothing in the property speaks about it).
+//!
+//! Known-finding input classes (`Excl`, `skip_repeats`) are decided on the input bytes / the schedule
+//! before the library is called, never on a panic message.
 
-pub fn run(_ctx: &Ctx) {
-    // not built yet
+use crate::util::{hex, slice_range, unhex, within};
+use crate::{ensure, ensure_eq, guard, guard_s, pick, Ctx, Outcome, PResult};
+use libtw2_common::str::truncated_arraystring;
+use libtw2_serverbrowse::protocol as sb;
+use proptest::prelude::*;
+use sb::{ClientInfo, PartialServerInfo, Response, ServerInfo, ServerInfoVersion};
+use serde::{Deserialize, Serialize};
+use serde_json::json;
+use std::sync::atomic::{AtomicU64, Ordering};
+
+pub const KEY_DUP: &str = "merge-duplicate-part";
+pub const KEY_PKT64: &str = "shift-packet-no-64";
+pub const KEY_SLOT64: &str = "shift-slot-64";
+
+mod hexser {
+    use super::{hex, unhex};
+    use serde::{Deserialize, Deserializer, Serializer};
+    pub fn serialize<S: Serializer>(v: &Vec<u8>, s: S) -> Result<S::Ok, S::Error> {
+        s.serialize_str(&hex(v))
+    }
+    pub fn deserialize<'de, D: Deserializer<'de>>(d: D) -> Result<Vec<u8>, D::Error> {
+        let s = String::deserialize(d)?;
+        if s.len() % 2 != 0 || !s.bytes().all(|b| b.is_ascii_hexdigit()) {
+            return Err(serde::de::Error::custom("not a hex string"));
+        }
+        Ok(unhex(&s))
+    }
+}
+
+// ---------------------------------------------------------------------------
+// Response kinds and their headers
+
+#[derive(Clone, Copy, Debug, Hash, PartialEq, Eq, PartialOrd, Ord, Serialize, Deserialize)]
+pub enum Kind {
+    List5,
+    List6,
+    List7,
+    Count,
+    Count7,
+    Info5,
+    Info6,
+    Info6Ddper,
+    Info664,
+    Info6Ex,
+    Info6ExMore,
+    Info7,
+    Token7,
+}
+
+use Kind::*;
+
+pub const KINDS: [Kind; 13] = [
+    List5, List6, List7, Count, Count7, Info5, Info6, Info6Ddper, Info664, Info6Ex, Info6ExMore, Info7, Token7,
+];
+pub const INFO_KINDS: [Kind; 7] = [Info5, Info6, Info6Ddper, Info664, Info6Ex, Info6ExMore, Info7];
+
+impl Kind {
+    pub fn name(self) -> &'static str {
+        match self {
+            List5 => "list5",
+            List6 => "list6",
+            List7 => "list7",
+            Count => "count",
+            Count7 => "count7",
+            Info5 => "info5",
+            Info6 => "info6",
+            Info6Ddper => "info6_ddper",
+            Info664 => "info6_64",
+            Info6Ex => "info6_ex",
+            Info6ExMore => "info6_ex_more",
+            Info7 => "info7",
+            Token7 => "token7",
+        }
+    }
+    pub fn is_info(self) -> bool {
+        INFO_KINDS.contains(&self)
+    }
+    fn packed_ints(self) -> bool {
+        self == Info7
+    }
+    fn version(self) -> Option<ServerInfoVersion> {
+        Some(match self {
+            Info5 => ServerInfoVersion::V5,
+            Info6 => ServerInfoVersion::V6,
+            Info6Ddper => ServerInfoVersion::V6Ddper,
+            Info664 => ServerInfoVersion::V664,
+            Info6Ex | Info6ExMore => ServerInfoVersion::V6Ex,
+            Info7 => ServerInfoVersion::V7,
+            _ => return None,
+        })
+    }
+}
+
+/// The datagram header of `kind`; `pre` fills the bytes a real peer chooses (packet flags / tokens).
+pub fn header(kind: Kind, pre: &[u8; 8]) -> Vec<u8> {
+    match kind {
+        Token7 => {
+            let mut h = sb::TOKEN_7.to_vec();
+            h[3..7].copy_from_slice(&pre[..4]);
+            h
+        }
+        List7 | Count7 | Info7 => {
+            let mut h = match kind {
+                List7 => sb::LIST_7,
+                Count7 => sb::COUNT_7,
+                _ => sb::INFO_7,
+            }
+            .to_vec();
+            h[1..9].copy_from_slice(pre);
+            h
+        }
+        Info6Ddper => {
+            let mut h = sb::INFO_6_DDPER.to_vec();
+            h[2..6].copy_from_slice(&pre[..4]);
+            h
+        }
+        _ => {
+            let mut h = match kind {
+                List5 => sb::LIST_5,
+                List6 => sb::LIST_6,
+                Count => sb::COUNT,
+                Info5 => sb::INFO_5,
+                Info6 => sb::INFO_6,
+                Info664 => sb::INFO_6_64,
+                Info6Ex => sb::INFO_6_EX,
+                _ => sb::INFO_6_EX_MORE,
+            }
+            .to_vec();
+            h[..6].copy_from_slice(&pre[..6]);
+            h[0] |= sb::PACKETFLAG_CONNLESS;
+            if kind == Info6 && &h[..2] == b"dp" {
+                h[1] = b'q'; // "dp....inf3" is the DDPer variant
+            }
+            h
+        }
+    }
+}
+
+fn routed_kind(r: &Response) -> Kind {
+    match r {
+        Response::List5(..) => List5,
+        Response::List6(..) => List6,
+        Response::List7(..) => List7,
+        Response::Count(..) => Count,
+        Response::Count7(..) => Count7,
+        Response::Info5(..) => Info5,
+        Response::Info6(..) => Info6,
+        Response::Info6Ddper(..) => Info6Ddper,
+        Response::Info664(..) => Info664,
+        Response::Info6Ex(..) => Info6Ex,
+        Response::Info6ExMore(..) => Info6ExMore,
+        Response::Info7(..) => Info7,
+        Response::Token7(..) => Token7,
+    }
+}
+
+// ---------------------------------------------------------------------------
+// Model server: fields -> wire
+
+#[derive(Clone, Debug, Hash, PartialEq, Eq, Serialize, Deserialize)]
+pub struct Cl {
+    pub name: String,
+    pub clan: String,
+    pub country: i32,
+    pub score: i32,
+    /// 0.7: the flags word; 0.6 layouts: the `is_player` integer (0 = spectator)
+    pub flags: i32,
+}
+
+#[derive(Clone, Debug, Hash, PartialEq, Eq, Serialize, Deserialize)]
+pub struct Srv {
+    pub token: i32,
+    pub version: String,
+    pub name: String,
+    pub hostname: String,
+    pub map: String,
+    pub map_crc: i32,
+    pub map_size: i32,
+    pub game_type: String,
+    pub flags: i32,
+    pub progression: i32,
+    pub skill: i32,
+    pub num_players: i32,
+    pub max_players: i32,
+    pub num_clients: i32,
+    pub max_clients: i32,
+}
+
+#[derive(Clone, Debug, Hash, PartialEq, Eq, Serialize, Deserialize)]
+pub enum Tok {
+    Int(i32),
+    Str(#[serde(with = "hexser")] Vec<u8>),
+    /// bytes written verbatim, no terminator
+    Raw(#[serde(with = "hexser")] Vec<u8>),
+}
+
+#[derive(Clone, Copy, Debug, PartialEq, Eq)]
+pub enum Role {
+    Token,
+    PacketNo,
+    Text,
+    MapCrc,
+    MapSize,
+    Flags,
+    Progression,
+    Skill,
+    NumPlayers,
+    MaxPlayers,
+    NumClients,
+    MaxClients,
+    Offset,
+    Extra,
+    ClientText,
+    ClientInt,
+}
+
+fn pack_int(v: i32, out: &mut Vec<u8>) {
+    let sign = v < 0;
+    let mut bits: u32 = if sign { !(v as u32) } else { v as u32 };
+    let mut b = (bits & 0x3f) as u8 | if sign { 0x40 } else { 0 };
+    bits >>= 6;
+    while bits != 0 {
+        out.push(b | 0x80);
+        b = (bits & 0x7f) as u8;
+        bits >>= 7;
+    }
+    out.push(b);
+}
+
+pub fn render(packed_ints: bool, toks: &[Tok]) -> Vec<u8> {
+    let mut out = Vec::new();
+    for t in toks {
+        match t {
+            Tok::Int(v) => {
+                if packed_ints {
+                    pack_int(*v, &mut out);
+                } else {
+                    out.extend_from_slice(v.to_string().as_bytes());
+                    out.push(0);
+                }
+            }
+            Tok::Str(s) => {
+                out.extend_from_slice(s);
+                out.push(0);
+            }
+            Tok::Raw(r) => out.extend_from_slice(r),
+        }
+    }
+    out
+}
+
+fn st(s: &str) -> Tok {
+    Tok::Str(s.as_bytes().to_vec())
+}
+
+/// The field sequence of one server-info payload, in the order `parse_server_info` reads it.
+pub fn info_layout(kind: Kind, s: &Srv, offset: i32, packet_no: i32, clients: &[Cl]) -> Vec<(Role, Tok)> {
+    let mut t: Vec<(Role, Tok)> = Vec::new();
+    t.push((Role::Token, Tok::Int(s.token)));
+    if kind == Info6ExMore {
+        t.push((Role::PacketNo, Tok::Int(packet_no)));
+        t.push((Role::Extra, st("")));
+    } else {
+        t.push((Role::Text, st(&s.version)));
+        t.push((Role::Text, st(&s.name)));
+        if kind == Info7 {
+            t.push((Role::Text, st(&s.hostname)));
+        }
+        t.push((Role::Text, st(&s.map)));
+        if kind == Info6Ex {
+            t.push((Role::MapCrc, Tok::Int(s.map_crc)));
+            t.push((Role::MapSize, Tok::Int(s.map_size)));
+        }
+        t.push((Role::Text, st(&s.game_type)));
+        t.push((Role::Flags, Tok::Int(s.flags)));
+        if kind == Info5 {
+            t.push((Role::Progression, Tok::Int(s.progression)));
+        }
+        if kind == Info7 {
+            t.push((Role::Skill, Tok::Int(s.skill)));
+        }
+        t.push((Role::NumPlayers, Tok::Int(s.num_players)));
+        t.push((Role::MaxPlayers, Tok::Int(s.max_players)));
+        if kind != Info5 {
+            t.push((Role::NumClients, Tok::Int(s.num_clients)));
+            t.push((Role::MaxClients, Tok::Int(s.max_clients)));
+        }
+        if kind == Info664 {
+            t.push((Role::Offset, Tok::Int(offset)));
+        }
+        if kind == Info6Ex {
+            t.push((Role::Extra, st("")));
+        }
+    }
+    for c in clients {
+        t.push((Role::ClientText, st(&c.name)));
+        if kind != Info5 {
+            t.push((Role::ClientText, st(&c.clan)));
+            t.push((Role::ClientInt, Tok::Int(c.country)));
+        }
+        t.push((Role::ClientInt, Tok::Int(c.score)));
+        if kind != Info5 {
+            t.push((Role::ClientInt, Tok::Int(c.flags)));
+        }
+        if kind == Info6Ex || kind == Info6ExMore {
+            t.push((Role::Extra, st("")));
+        }
+    }
+    t
+}
+
+pub fn info_toks(kind: Kind, s: &Srv, offset: i32, packet_no: i32, clients: &[Cl]) -> Vec<Tok> {
+    info_layout(kind, s, offset, packet_no, clients).into_iter().map(|(_, t)| t).collect()
+}
+
+pub fn datagram(kind: Kind, pre: &[u8; 8], payload: &[u8]) -> Vec<u8> {
+    let mut d = header(kind, pre);
+    d.extend_from_slice(payload);
+    d
+}
+
+// ---------------------------------------------------------------------------
+// Input classes of the known findings (decided on the bytes, before the library is called)
+
+#[derive(Clone, Copy, Debug, Default)]
+pub struct Excl {
+    pub slot64: bool,
+    pub pkt64: bool,
+}
+
+fn text_fields(payload: &[u8]) -> Vec<&[u8]> {
+    let mut v: Vec<&[u8]> = payload.split(|&b| b == 0).collect();
+    v.pop(); // what follows the last NUL is not a complete field
+    v
+}
+
+fn int_of(f: &[u8]) -> Option<i32> {
+    std::str::from_utf8(f).ok()?.parse().ok()
+}
+
+/// Could a `dtsf` payload place a client into slot 64? (over-approximation: announced offset in
+/// 0..=64 and enough complete fields after the header for a client to reach slot 64)
+pub fn may_reach_slot_64(payload: &[u8]) -> bool {
+    let f = text_fields(payload);
+    if f.len() < 11 {
+        return false;
+    }
+    match int_of(f[10]) {
+        Some(o) if (0..=64).contains(&o) => o as usize + (f.len() - 11) / 5 > 64,
+        _ => false,
+    }
+}
+
+/// Does an `iex+` payload announce packet number 64?
+pub fn packet_no_is_64(payload: &[u8]) -> bool {
+    let f = text_fields(payload);
+    f.len() >= 2 && int_of(f[1]) == Some(64)
+}
+
+// ---------------------------------------------------------------------------
+// Totality oracle
+
+#[derive(Clone, Debug, Default)]
+pub struct DgStats {
+    pub routed: Option<Kind>,
+    pub value: bool,
+    pub complete_partial: bool,
+    pub clients: usize,
+    pub excluded: bool,
+    pub cross_values: u32,
+}
+
+fn check_info_value(kind: Kind, info: &ServerInfo, what: &str) -> Result<(), String> {
+    let v = kind.version().unwrap();
+    ensure_eq!(info.info_version, v, "{}: info_version", what);
+    let vmax = v.max_clients().map(|m| m as i64).unwrap_or(i64::MAX);
+    let (np, mp, nc, mc) = (
+        info.num_players as i64,
+        info.max_players as i64,
+        info.num_clients as i64,
+        info.max_clients as i64,
+    );
+    ensure!(
+        0 <= np && np <= nc && nc <= mc && mc <= vmax && 0 <= mp && mp <= mc,
+        "{}: a value was returned although the counts fail the documented sanity check: players {}/{} clients {}/{} (version maximum {:?})",
+        what,
+        np,
+        mp,
+        nc,
+        mc,
+        v.max_clients()
+    );
+    if kind != Info6ExMore {
+        ensure_eq!(info.hostname.is_some(), v.has_hostname(), "{}: hostname presence", what);
+        ensure_eq!(info.progression.is_some(), v.has_progression(), "{}: progression presence", what);
+        ensure_eq!(info.skill_level.is_some(), v.has_skill_level(), "{}: skill_level presence", what);
+        ensure_eq!(info.map_crc.is_some(), v.has_extended_map_info(), "{}: map_crc presence", what);
+        ensure_eq!(info.map_size.is_some(), v.has_extended_map_info(), "{}: map_size presence", what);
+        if let Some(sz) = info.map_size {
+            ensure!(sz <= i32::MAX as u32, "{}: negative map size accepted ({})", what, sz as i32);
+        }
+    }
+    ensure!(
+        info.clients.windows(2).all(|w| w[0] <= w[1]),
+        "{}: clients handed out unsorted: {:?}",
+        what,
+        info.clients
+    );
+    Ok(())
+}
+
+fn check_partial(kind: Kind, part: &PartialServerInfo, st: &mut DgStats, routed: bool) -> Result<(), String> {
+    let what = kind.name();
+    let token = guard_s("PartialServerInfo::token", || part.token())?;
+    let mut a = part.clone();
+    let before = guard_s("get_info on a freshly parsed part", || a.get_info().cloned())?;
+    if let Some(info) = &before {
+        check_info_value(kind, info, what)?;
+        ensure_eq!(info.token, token, "{}: token() differs from the info's token", what);
+        ensure_eq!(
+            info.clients.len() as i64,
+            info.num_clients as i64,
+            "{}: reported complete with a client list of another length than announced",
+            what
+        );
+        if routed {
+            st.complete_partial = true;
+            st.clients = info.clients.len();
+        }
+    }
+    // a part merged with itself: same result
+    let mut b = part.clone();
+    let other = part.clone();
+    guard_s("merge of a part with itself", || {
+        let _ = b.merge(other);
+    })?;
+    let after = guard_s("get_info after self-merge", || b.get_info().cloned())?;
+    ensure_eq!(after, before, "{}: merging a part with itself changed what get_info reports", what);
+    let mut c = part.clone();
+    let taken = guard_s("take_info on a freshly parsed part", || c.take_info())?;
+    ensure_eq!(taken, before, "{}: take_info and get_info disagree", what);
+    let other = part.clone();
+    guard_s("merge into a partial whose info was taken", move || {
+        let _ = c.merge(other);
+        let _ = c.get_info().is_some();
+    })?;
+    Ok(())
+}
+
+/// Parse `payload` as server info of `kind` and check the value; Ok(was a value returned).
+fn check_payload_as(kind: Kind, payload: &[u8], excl: Excl, st: &mut DgStats, routed: bool) -> Result<bool, String> {
+    if (excl.slot64 && kind == Info664 && may_reach_slot_64(payload))
+        || (excl.pkt64 && kind == Info6ExMore && packet_no_is_64(payload))
+    {
+        st.excluded = true;
+        return Ok(false);
+    }
+    let what = kind.name();
+    let full = |r: Option<ServerInfo>, st: &mut DgStats| -> Result<bool, String> {
+        match r {
+            None => Ok(false),
+            Some(info) => {
+                check_info_value(kind, &info, what)?;
+                if routed {
+                    st.clients = info.clients.len();
+                }
+                Ok(true)
+            }
+        }
+    };
+    let partial = |r: Option<PartialServerInfo>, st: &mut DgStats| -> Result<bool, String> {
+        match r {
+            None => Ok(false),
+            Some(p) => {
+                check_partial(kind, &p, st, routed)?;
+                Ok(true)
+            }
+        }
+    };
+    let ctx = format!("{}::parse on [{}]", what, hex(&payload[..payload.len().min(96)]));
+    match kind {
+        Info5 => full(guard_s(&ctx, || sb::Info5Response(payload).parse())?, st),
+        Info6 => full(guard_s(&ctx, || sb::Info6Response(payload).parse())?, st),
+        Info6Ddper => full(guard_s(&ctx, || sb::Info6DdperResponse(payload).parse())?, st),
+        Info7 => {
+            let t = sb::Token7([1, 2, 3, 4]);
+            full(guard_s(&ctx, || sb::Info7Response(t, t, payload).parse())?, st)
+        }
+        Info664 => partial(guard_s(&ctx, || sb::Info664Response(payload).parse())?, st),
+        Info6Ex => partial(guard_s(&ctx, || sb::Info6ExResponse(payload).parse())?, st),
+        Info6ExMore => partial(guard_s(&ctx, || sb::Info6ExMoreResponse(payload).parse())?, st),
+        _ => unreachable!(),
+    }
+}
+
+fn check_all_info_kinds(payload: &[u8], routed: Option<Kind>, excl: Excl, st: &mut DgStats) -> Result<(), String> {
+    for k in INFO_KINDS {
+        let is_routed = routed == Some(k);
+        let v = check_payload_as(k, payload, excl, st, is_routed)?;
+        if is_routed {
+            st.value = v;
+        } else if v {
+            st.cross_values += 1;
+        }
+    }
+    Ok(())
+}
+
+fn addr_slice_ok<T>(s: &[T], data: &[u8], header_len: usize) -> Result<(), String> {
+    let size = std::mem::size_of::<T>();
+    let start = s.as_ptr() as usize;
+    let range = slice_range(data);
+    ensure!(
+        s.is_empty() || (start >= range.0 + header_len && start + s.len() * size <= range.1),
+        "address list of {} entries x {} bytes lies outside the {}-byte datagram",
+        s.len(),
+        size,
+        data.len()
+    );
+    Ok(())
+}
+
+/// The whole-datagram oracle (also the body of the libFuzzer target): strict, no exclusions.
+pub fn check_datagram(data: &[u8]) -> Result<(), String> {
+    check_datagram_tolerant(data, Excl::default()).map(|_| ())
+}
+
+/// Like `check_datagram`, but input classes of listed known findings are not handed to the library.
+pub fn check_datagram_tolerant(data: &[u8], excl: Excl) -> Result<DgStats, String> {
+    let mut st = DgStats::default();
+    let range = slice_range(data);
+    let resp = guard_s(&format!("parse_response on [{}]", hex(&data[..data.len().min(64)])), || {
+        sb::parse_response(data)
+    })?;
+    let Some(resp) = resp else {
+        // not a known response: still exercise the seven payload parsers on the bytes (fuzzing entry)
+        check_all_info_kinds(data, None, excl, &mut st)?;
+        return Ok(st);
+    };
+    let kind = routed_kind(&resp);
+    st.routed = Some(kind);
+    match resp {
+        Response::List5(sb::List5Response(a)) => {
+            addr_slice_ok(a, data, 14)?;
+            for x in a {
+                guard_s("Addr5Packed::unpack", || x.unpack())?;
+            }
+            st.value = true;
+            st.clients = a.len();
+        }
+        Response::List6(sb::List6Response(a)) => {
+            addr_slice_ok(a, data, 14)?;
+            for x in a {
+                guard_s("Addr6Packed::unpack", || x.unpack())?;
+            }
+            st.value = true;
+            st.clients = a.len();
+        }
+        Response::List7(sb::List7Response(_, _, a)) => {
+            addr_slice_ok(a, data, 17)?;
+            for x in a {
+                guard_s("Addr6Packed::unpack", || x.unpack())?;
+            }
+            st.value = true;
+            st.clients = a.len();
+        }
+        Response::Count(..) | Response::Count7(..) | Response::Token7(..) => st.value = true,
+        Response::Info5(sb::Info5Response(p))
+        | Response::Info6(sb::Info6Response(p))
+        | Response::Info6Ddper(sb::Info6DdperResponse(p))
+        | Response::Info664(sb::Info664Response(p))
+        | Response::Info6Ex(sb::Info6ExResponse(p))
+        | Response::Info6ExMore(sb::Info6ExMoreResponse(p))
+        | Response::Info7(sb::Info7Response(_, _, p)) => {
+            ensure!(within(p, range), "{} payload slice lies outside the datagram", kind.name());
+            check_all_info_kinds(p, Some(kind), excl, &mut st)?;
+        }
+    }
+    Ok(st)
+}
+
+// ---------------------------------------------------------------------------
+// Deterministic bases for the exhaustive sections
+
+fn base_client(i: usize) -> Cl {
+    Cl {
+        name: format!("player{}", i),
+        clan: format!("c{}", i % 7),
+        country: (i as i32 % 5) - 1,
+        score: 100 - i as i32,
+        flags: (i % 3 != 0) as i32,
+    }
+}
+
+fn base_srv(kind: Kind, n: usize) -> Srv {
+    let vmax = match kind {
+        Info5 | Info6 | Info6Ddper => 16,
+        Info664 | Info7 => 64,
+        _ => 128,
+    };
+    let nc = (n as i32).min(vmax);
+    Srv {
+        token: 77,
+        version: "0.6.4, 11.2".into(),
+        name: "model server".into(),
+        hostname: "host.example".into(),
+        map: "dm1".into(),
+        map_crc: 0x1234_5678,
+        map_size: 5814,
+        game_type: "DM".into(),
+        flags: 1,
+        progression: 50,
+        skill: 1,
+        num_players: nc / 2,
+        max_players: vmax / 2,
+        num_clients: nc,
+        max_clients: vmax,
+    }
+}
+
+fn base_layout(kind: Kind, n: usize) -> Vec<(Role, Tok)> {
+    let clients: Vec<Cl> = (0..n).map(base_client).collect();
+    info_layout(kind, &base_srv(kind, n), 0, 1, &clients)
+}
+
+const PRE: [u8; 8] = [0xff, 0xff, 0xff, 0xff, 0xff, 0xff, 0xff, 0xff];
+
+fn base_payload(kind: Kind, n: usize) -> Vec<u8> {
+    match kind {
+        List5 => (0..n * 6).map(|i| (i * 37 + 1) as u8).collect(),
+        List6 | List7 => (0..n * 18)
+            .map(|i| if n % 2 == 0 && i % 18 < 12 { sb::IPV4_MAPPING[i % 18] } else { (i * 37 + 1) as u8 })
+            .collect(),
+        Count | Count7 => vec![0x12, 0x34, 0x56][..n.min(3)].to_vec(),
+        Token7 => vec![9, 8, 7, 6, 0, 0, 0, 0][..n.min(8)].to_vec(),
+        _ => render(kind.packed_ints(), &base_layout(kind, n).into_iter().map(|(_, t)| t).collect::<Vec<_>>()),
+    }
+}
+
+fn base_datagrams(sizes: &[usize]) -> Vec<(Kind, Vec<u8>)> {
+    let mut v = Vec::new();
+    for k in KINDS {
+        for &n in sizes {
+            v.push((k, datagram(k, &PRE, &base_payload(k, n))));
+        }
+    }
+    v
+}
+
+/// Boundary values every numeric field is swept over.
+#[rustfmt::skip]
+pub const B: [i32; 46] = [
+    i32::MIN, i32::MIN + 1, -65536, -129, -128, -127, -65, -64, -63, -17, -16, -2, -1, 0, 1, 2, 3, 15, 16, 17, 23, 24, 25,
+    31, 32, 33, 40, 41, 47, 48, 49, 62, 63, 64, 65, 66, 127, 128, 129, 255, 256, 65535, 65536, 1 << 24, i32::MAX - 1, i32::MAX,
+];
+
+const S: [i32; 11] = [i32::MIN, -1, 0, 1, 15, 16, 17, 63, 64, 65, i32::MAX];
+
+/// Index space made of consecutive blocks.
+struct Blocks<T> {
+    items: Vec<(T, u64)>,
+    starts: Vec<u64>,
+    total: u64,
+}
+
+impl<T> Blocks<T> {
+    fn new(items: Vec<(T, u64)>) -> Blocks<T> {
+        let mut starts = Vec::new();
+        let mut total = 0;
+        for (_, n) in &items {
+            starts.push(total);
+            total += n;
+        }
+        Blocks { items, starts, total }
+    }
+    fn locate(&self, idx: u64) -> (usize, u64) {
+        let b = match self.starts.binary_search(&idx) {
+            Ok(mut b) => {
+                // skip empty blocks that start at the same index
+                while self.items[b].1 == 0 {
+                    b += 1;
+                }
+                b
+            }
+            Err(b) => b - 1,
+        };
+        (b, idx - self.starts[b])
+    }
+    fn get(&self, idx: u64) -> (&T, u64) {
+        let (b, sub) = self.locate(idx);
+        (&self.items[b].0, sub)
+    }
+}
+
+struct Tally {
+    excluded: AtomicU64,
+}
+
+impl Tally {
+    fn new() -> Tally {
+        Tally {
+            excluded: AtomicU64::new(0),
+        }
+    }
+    fn run(&self, data: &[u8], excl: Excl) -> Result<bool, String> {
+        let st = check_datagram_tolerant(data, excl)?;
+        if st.excluded {
+            self.excluded.fetch_add(1, Ordering::Relaxed);
+        }
+        Ok(st.value)
+    }
+    fn flush(&self, ctx: &Ctx) {
+        ctx.add_excluded_known(self.excluded.swap(0, Ordering::Relaxed));
+    }
+}
+
+fn set_int(layout: &[(Role, Tok)], changes: &[(usize, i32)]) -> Vec<Tok> {
+    let mut toks: Vec<Tok> = layout.iter().map(|(_, t)| t.clone()).collect();
+    for &(pos, v) in changes {
+        toks[pos] = Tok::Int(v);
+    }
+    toks
+}
+
+fn int_positions(layout: &[(Role, Tok)]) -> Vec<usize> {
+    layout
+        .iter()
+        .enumerate()
+        .filter(|(_, (_, t))| matches!(t, Tok::Int(_)))
+        .map(|(i, _)| i)
+        .collect()
+}
+
+fn role_pos(layout: &[(Role, Tok)], role: Role) -> Option<usize> {
+    layout.iter().position(|(r, _)| *r == role)
+}
+
+#[derive(Clone, Debug)]
+enum PairPlan {
+    /// the four (V5: two) count fields over S
+    Counts { kind: Kind, n: usize, pos: Vec<usize> },
+    /// dtsf: offset over B x number of clients in the packet 0..=70
+    OffsetClients,
+    /// iex+: packet number over B x clients
+    PacketClients,
+    /// two header integers over B x B
+    Pair { kind: Kind, a: usize, b: usize },
+}
+
+const PACKET_CLIENTS: [usize; 4] = [0, 1, 2, 24];
+
+fn pair_plans(thorough: bool) -> Blocks<PairPlan> {
+    let mut items = Vec::new();
+    for kind in INFO_KINDS {
+        if kind == Info6ExMore {
+            continue;
+        }
+        for n in [0usize, 1, 16] {
+            let l = base_layout(kind, n);
+            let pos: Vec<usize> = [Role::NumPlayers, Role::MaxPlayers, Role::NumClients, Role::MaxClients]
+                .iter()
+                .filter_map(|r| role_pos(&l, *r))
+                .collect();
+            let total = (S.len() as u64).pow(pos.len() as u32);
+            items.push((PairPlan::Counts { kind, n, pos }, total));
+        }
+    }
+    items.push((PairPlan::OffsetClients, B.len() as u64 * 71));
+    items.push((PairPlan::PacketClients, (B.len() * PACKET_CLIENTS.len()) as u64));
+    if thorough {
+        for kind in INFO_KINDS {
+            let l = base_layout(kind, 2);
+            let ints = int_positions(&l);
+            for (i, &a) in ints.iter().enumerate() {
+                for &b in &ints[i + 1..] {
+                    items.push((PairPlan::Pair { kind, a, b }, (B.len() * B.len()) as u64));
+                }
+            }
+        }
+    }
+    Blocks::new(items)
+}
+
+fn pair_datagram(plan: &PairPlan, sub: u64) -> (Kind, Vec<Tok>, String) {
+    match plan {
+        PairPlan::Counts { kind, n, pos } => {
+            let l = base_layout(*kind, *n);
+            let mut changes = Vec::new();
+            let mut s = sub;
+            for &p in pos {
+                changes.push((p, S[(s % S.len() as u64) as usize]));
+                s /= S.len() as u64;
+            }
+            let d = format!("{} with {} clients, counts {:?}", kind.name(), n, changes.iter().map(|c| c.1).collect::<Vec<_>>());
+            (*kind, set_int(&l, &changes), d)
+        }
+        PairPlan::OffsetClients => {
+            let (o, n) = (B[(sub / 71) as usize], (sub % 71) as usize);
+            let mut l = base_layout(Info664, n);
+            let p = role_pos(&l, Role::Offset).unwrap();
+            l[p].1 = Tok::Int(o);
+            (Info664, l.into_iter().map(|(_, t)| t).collect(), format!("dtsf offset {} with {} clients", o, n))
+        }
+        PairPlan::PacketClients => {
+            let (v, n) = (
+                B[(sub / PACKET_CLIENTS.len() as u64) as usize],
+                PACKET_CLIENTS[(sub % PACKET_CLIENTS.len() as u64) as usize],
+            );
+            let mut l = base_layout(Info6ExMore, n);
+            let p = role_pos(&l, Role::PacketNo).unwrap();
+            l[p].1 = Tok::Int(v);
+            (Info6ExMore, l.into_iter().map(|(_, t)| t).collect(), format!("iex+ packet_no {} with {} clients", v, n))
+        }
+        PairPlan::Pair { kind, a, b } => {
+            let l = base_layout(*kind, 2);
+            let (va, vb) = (B[(sub / B.len() as u64) as usize], B[(sub % B.len() as u64) as usize]);
+            let d = format!("{} fields #{} {:?}={} and #{} {:?}={}", kind.name(), a, l[*a].0, va, b, l[*b].0, vb);
+            (*kind, set_int(&l, &[(*a, va), (*b, vb)]), d)
+        }
+    }
+}
+
+// ---------------------------------------------------------------------------
+// Generated hostile datagrams
+
+#[derive(Clone, Debug, Hash, Serialize, Deserialize)]
+pub struct DgCase {
+    pub kind: Kind,
+    pub pre: [u8; 8],
+    pub toks: Vec<Tok>,
+    #[serde(with = "hexser")]
+    pub tail: Vec<u8>,
+    /// keep only the first pick(cut, len + 1) bytes
+    pub cut: Option<u16>,
+    /// overwrite the byte at pick(pos, len)
+    pub patch: Option<(u16, u8)>,
+}
+
+pub fn dg_bytes(c: &DgCase) -> Vec<u8> {
+    let mut payload = render(c.kind.packed_ints(), &c.toks);
+    payload.extend_from_slice(&c.tail);
+    let mut d = datagram(c.kind, &c.pre, &payload);
+    if let Some((pos, b)) = c.patch {
+        if !d.is_empty() {
+            let i = pick(pos, d.len());
+            d[i] = b;
+        }
+    }
+    if let Some(cut) = c.cut {
+        let n = pick(cut, d.len() + 1);
+        d.truncate(n);
+    }
+    d
+}
+
+fn hostile_int() -> BoxedStrategy<i32> {
+    prop_oneof![
+        4 => proptest::sample::select(B.to_vec()),
+        3 => -2i32..70,
+        1 => any::<i32>(),
+    ]
+    .boxed()
+}
+
+fn text(max: usize) -> BoxedStrategy<String> {
+    // valid UTF-8 without NUL; multi-byte characters straddle the library's truncation limits
+    prop_oneof![
+        5 => proptest::string::string_regex(&format!("[a-zA-Z0-9 _.\\-]{{0,{}}}", max)).unwrap(),
+        2 => (0..=max + 4, proptest::sample::select(vec!["\u{e9}", "\u{20ac}", "\u{1f600}", "\u{7f}", "\u{1}"]), 0usize..4)
+            .prop_map(|(n, ch, m)| format!("{}{}{}", "a".repeat(n), ch, ch.repeat(m))),
+        1 => (max..max * 2 + 8).prop_map(|n| "x".repeat(n)),
+        1 => any::<i32>().prop_map(|v| v.to_string()),
+    ]
+    .boxed()
+}
+
+fn client_strategy() -> impl Strategy<Value = Cl> {
+    (
+        text(15),
+        text(11),
+        prop_oneof![3 => -1i32..300, 1 => hostile_int()],
+        prop_oneof![3 => -50i32..1000, 1 => hostile_int()],
+        prop_oneof![4 => 0i32..=1, 1 => hostile_int()],
+    )
+        .prop_map(|(name, clan, country, score, flags)| Cl {
+            name,
+            clan,
+            country,
+            score,
+            flags,
+        })
+}
+
+/// A few fixed client identities so that identical clients occur in one server.
+fn client_pool() -> impl Strategy<Value = Cl> {
+    prop_oneof![
+        4 => client_strategy(),
+        1 => (0usize..3).prop_map(|i| Cl {
+            name: ["(connecting)", "nameless tee", ""][i].to_string(),
+            clan: String::new(),
+            country: -1,
+            score: 0,
+            flags: (i == 1) as i32,
+        }),
+    ]
+}
+
+fn hostile_srv() -> impl Strategy<Value = (Srv, Vec<Cl>, bool)> {
+    let clients = prop_oneof![
+        4 => proptest::collection::vec(client_pool(), 0..4),
+        3 => proptest::collection::vec(client_pool(), 0..=17),
+        2 => proptest::collection::vec(client_pool(), 22..=26),
+        2 => proptest::collection::vec(client_pool(), 60..=70),
+    ];
+    (
+        clients,
+        (hostile_int(), text(32), text(64), text(64), text(32), text(32)),
+        (any::<i32>(), prop_oneof![3 => 0i32..=i32::MAX, 1 => hostile_int()], hostile_int(), hostile_int(), hostile_int()),
+        prop_oneof![
+            5 => (0u8..4, any::<u16>(), any::<u16>(), 0u8..3).prop_map(|(slack, np, mp, cap)| (None::<(i32, i32, i32, i32)>, slack, np, mp, cap)),
+            3 => (hostile_int(), hostile_int(), hostile_int(), hostile_int())
+                .prop_map(|q| (Some(q), 0u8, 0u16, 0u16, 0u8)),
+        ],
+    )
+        .prop_map(|(clients, (token, version, name, hostname, map, game_type), (map_crc, map_size, flags, progression, skill), counts)| {
+            let n = clients.len() as i32;
+            let consistent = counts.0.is_none();
+            let (num_players, max_players, num_clients, max_clients) = match counts {
+                (Some(q), ..) => q,
+                (None, slack, np, mp, cap) => {
+                    let cap = [16, 64, 128][cap as usize];
+                    let mc = (n + slack as i32).min(cap).max(n.min(cap));
+                    let nc = n.min(mc);
+                    let npl = pick(np, nc as usize + 1) as i32;
+                    let mpl = npl + pick(mp, (mc - npl) as usize + 1) as i32;
+                    (npl, mpl, nc, mc)
+                }
+            };
+            (
+                Srv {
+                    token,
+                    version,
+                    name,
+                    hostname,
+                    map,
+                    map_crc,
+                    map_size,
+                    game_type,
+                    flags,
+                    progression,
+                    skill,
+                    num_players,
+                    max_players,
+                    num_clients,
+                    max_clients,
+                },
+                clients,
+                consistent,
+            )
+        })
+}
+
+fn junk_field() -> BoxedStrategy<Vec<u8>> {
+    prop_oneof![
+        3 => proptest::sample::select(
+            ["", "-", "+", "+5", "-0", "007", "2147483648", "-2147483649", "99999999999999999999", "1e3", " 1", "1 ", "0x10", "\u{663}", "64", "-1"]
+                .iter()
+                .map(|s| s.as_bytes().to_vec())
+                .collect::<Vec<_>>()
+        ),
+        2 => proptest::collection::vec(1u8..=255, 0..40),
+        1 => proptest::collection::vec(any::<u8>(), 0..12),
+        1 => (120usize..400).prop_map(|n| vec![b'z'; n]),
+    ]
+    .boxed()
+}
+
+#[derive(Clone, Debug)]
+enum TokMut {
+    SetInt(u16, i32),
+    SetField(u16, Vec<u8>),
+    Delete(u16),
+    Duplicate(u16),
+    InsertRaw(u16, Vec<u8>),
+}
+
+fn tok_mut() -> impl Strategy<Value = TokMut> {
+    prop_oneof![
+        4 => (any::<u16>(), hostile_int()).prop_map(|(p, v)| TokMut::SetInt(p, v)),
+        3 => (any::<u16>(), junk_field()).prop_map(|(p, v)| TokMut::SetField(p, v)),
+        1 => any::<u16>().prop_map(TokMut::Delete),
+        1 => any::<u16>().prop_map(TokMut::Duplicate),
+        1 => (any::<u16>(), junk_field()).prop_map(|(p, v)| TokMut::InsertRaw(p, v)),
+    ]
+}
+
+fn apply_muts(mut toks: Vec<Tok>, muts: &[TokMut]) -> Vec<Tok> {
+    for m in muts {
+        if toks.is_empty() {
+            break;
+        }
+        match m {
+            TokMut::SetInt(p, v) => {
+                let ints: Vec<usize> = toks
+                    .iter()
+                    .enumerate()
+                    .filter(|(_, t)| matches!(t, Tok::Int(_)))
+                    .map(|(i, _)| i)
+                    .collect();
+                if !ints.is_empty() {
+                    // header integers first: they come first in the list and `pick` is monotone
+                    let i = ints[pick(*p, ints.len().min(14))];
+                    toks[i] = Tok::Int(*v);
+                }
+            }
+            TokMut::SetField(p, v) => {
+                let i = pick(*p, toks.len().min(20));
+                toks[i] = Tok::Str(v.clone());
+            }
+            TokMut::Delete(p) => {
+                let i = pick(*p, toks.len());
+                toks.remove(i);
+            }
+            TokMut::Duplicate(p) => {
+                let i = pick(*p, toks.len());
+                let t = toks[i].clone();
+                toks.insert(i, t);
+            }
+            TokMut::InsertRaw(p, v) => {
+                let i = pick(*p, toks.len() + 1);
+                toks.insert(i, Tok::Raw(v.clone()));
+            }
+        }
+    }
+    toks
+}
+
+fn dg_strategy() -> impl Strategy<Value = DgCase> {
+    let info = (
+        proptest::sample::select(INFO_KINDS.to_vec()),
+        hostile_srv(),
+        prop_oneof![3 => proptest::sample::select(vec![0i32, 24, 48]), 2 => hostile_int()],
+        prop_oneof![3 => 1i32..8, 2 => hostile_int()],
+        prop_oneof![
+            4 => Just(Vec::new()).boxed(),
+            4 => proptest::collection::vec(tok_mut(), 1..=1).boxed(),
+            2 => proptest::collection::vec(tok_mut(), 2..=4).boxed(),
+        ],
+    )
+        .prop_map(|(kind, (mut srv, clients, consistent), offset, packet_no, muts)| {
+            if consistent {
+                // consistent counts respect the layout's own maximum
+                let vmax = kind.version().and_then(|v| v.max_clients()).map(|m| m as i32).unwrap_or(i32::MAX);
+                srv.max_clients = srv.max_clients.min(vmax);
+                srv.num_clients = srv.num_clients.min(srv.max_clients);
+                srv.max_players = srv.max_players.min(srv.max_clients);
+                srv.num_players = srv.num_players.min(srv.num_clients).min(srv.max_players);
+            }
+            (kind, apply_muts(info_toks(kind, &srv, offset, packet_no, &clients), &muts), Vec::new())
+        });
+    let other = (
+        proptest::sample::select(vec![List5, List6, List7, Count, Count7, Token7]),
+        prop_oneof![
+            3 => proptest::collection::vec(any::<u8>(), 0..8),
+            3 => (0usize..7, 0usize..18, any::<u8>(), any::<bool>()).prop_map(|(n, extra, b, v4)| {
+                let mut v = Vec::new();
+                for i in 0..n * 18 + extra {
+                    v.push(if v4 && i % 18 < 12 { sb::IPV4_MAPPING[i % 18] } else { b.wrapping_add(i as u8) });
+                }
+                v
+            }),
+            2 => proptest::collection::vec(any::<u8>(), 0..140),
+        ],
+    )
+        .prop_map(|(kind, tail)| (kind, Vec::new(), tail));
+    (
+        prop_oneof![7 => info.boxed(), 2 => other.boxed()],
+        prop_oneof![
+            3 => Just([0xffu8; 8]),
+            2 => any::<[u8; 8]>(),
+            1 => Just(*b"dp\0\0\0\0\xff\xff"),
+            1 => Just([0x04, 0, 0, 0, 0, 0, 0, 0]),
+            1 => Just([0x21, 0, 0, 0, 0, 0, 0, 0]),
+        ],
+        proptest::option::weighted(0.3, prop_oneof![2 => any::<u16>(), 1 => 0xfff0u16..=0xffff, 1 => 0u16..600]),
+        proptest::option::weighted(
+            0.25,
+            (any::<u16>(), prop_oneof![Just(0u8), Just(b'-'), Just(b'9'), Just(0x80), Just(0xff), any::<u8>()])
+        ),
+    )
+        .prop_map(|((kind, toks, tail), pre, cut, patch)| DgCase {
+            kind,
+            pre,
+            toks,
+            tail,
+            cut,
+            patch,
+        })
+}
+
+fn random_datagram() -> impl Strategy<Value = Vec<u8>> {
+    let head = prop_oneof![
+        6 => (proptest::sample::select(KINDS.to_vec()), any::<[u8; 8]>()).prop_map(|(k, pre)| header(k, &pre)),
+        1 => proptest::collection::vec(any::<u8>(), 0..20),
+        1 => (proptest::sample::select(KINDS.to_vec()), any::<[u8; 8]>(), any::<u16>()).prop_map(|(k, pre, c)| {
+            let mut h = header(k, &pre);
+            let n = pick(c, h.len() + 1);
+            h.truncate(n);
+            h
+        }),
+    ];
+    let alphabet: Vec<u8> = vec![
+        0, 0, 0, 0, 0, 0, b'0', b'1', b'2', b'3', b'4', b'5', b'6', b'7', b'8', b'9', b'9', b'-', b'+', b'a', b' ', 0xff, 0x80, 0xc3, 0xa9, 0x40, 0x3f,
+    ];
+    let body = prop_oneof![
+        3 => proptest::collection::vec(proptest::sample::select(alphabet.clone()), 0..160),
+        1 => proptest::collection::vec(any::<u8>(), 0..160),
+    ];
+    let random = (head, body).prop_map(|(mut h, b)| {
+        h.extend_from_slice(&b);
+        h
+    });
+    // a well-formed payload (of the header's kind or of another one) with a few bytes overwritten
+    let spliced = (
+        proptest::sample::select(KINDS.to_vec()),
+        proptest::option::weighted(0.3, proptest::sample::select(INFO_KINDS.to_vec())),
+        any::<[u8; 8]>(),
+        proptest::sample::select(vec![0usize, 1, 2, 3, 17]),
+        proptest::collection::vec((any::<u16>(), proptest::sample::select(alphabet)), 0..=6),
+        proptest::option::weighted(0.2, any::<u16>()),
+    )
+        .prop_map(|(k, other, pre, n, patches, cut)| {
+            let mut body = base_payload(other.unwrap_or(k), n);
+            for (pos, b) in patches {
+                if !body.is_empty() {
+                    let i = pick(pos, body.len());
+                    body[i] = b;
+                }
+            }
+            if let Some(c) = cut {
+                let n = pick(c, body.len() + 1);
+                body.truncate(n);
+            }
+            datagram(k, &pre, &body)
+        });
+    prop_oneof![1 => random.boxed(), 1 => spliced.boxed()]
+}
+
+fn check_dg_case(c: &DgCase, excl: Excl) -> PResult {
+    let data = dg_bytes(c);
+    let st = check_datagram_tolerant(&data, excl)?;
+    let o = Outcome::nt(st.routed.is_some() && !st.excluded && (st.value || data.len() > 24))
+        .class_if(st.excluded, "excluded_known")
+        .class_if(st.routed.is_none(), "not_routed")
+        .class_if(st.routed == Some(c.kind), "routed_as_built")
+        .class_if(st.routed.map(|k| k.is_info()).unwrap_or(false) && st.value, "info_value")
+        .class_if(st.routed.map(|k| k.is_info()).unwrap_or(false) && !st.value, "info_refused")
+        .class_if(st.complete_partial, "partial_complete")
+        .class_if(st.cross_values > 0, "value_as_other_kind")
+        .class_if(st.clients >= 17, "clients_17_plus")
+        .class_if(st.clients >= 64, "clients_64_plus")
+        .class_if(c.cut.is_some(), "truncated")
+        .class_if(c.patch.is_some(), "patched");
+    Ok(match st.routed {
+        Some(k) => o.class(k.name()),
+        None => o,
+    })
+}
+
+// ---------------------------------------------------------------------------
+// Merging
+
+#[derive(Clone, Debug, Hash, Serialize, Deserialize)]
+pub struct MergeCase {
+    /// extended (`iext` + `iex+`) or legacy 64-player (`dtsf`)
+    pub ex: bool,
+    pub token: i32,
+    pub version: String,
+    pub name: String,
+    pub map: String,
+    pub game_type: String,
+    pub map_crc: i32,
+    pub map_size: i32,
+    pub flags: i32,
+    pub clients: Vec<Cl>,
+    /// max_clients = num_clients + slack (capped)
+    pub slack: u8,
+    pub num_players: u16,
+    pub max_players: u16,
+    /// extended: number of clients in the main packet = pick(main_n, n + 1)
+    pub main_n: u16,
+    /// extended: sizes of the `iex+` packets
+    pub sizes: Vec<u8>,
+    /// arrival order of the parts: sorted by (keys[i], i)
+    pub keys: Vec<u32>,
+    /// repeats: (position in the schedule, part)
+    pub dups: Vec<(u16, u16)>,
+    /// parts that do not belong to this info: (position, part, 0 = other token / 1 = other layout)
+    pub foreign: Vec<(u16, u16, u8)>,
+}
+
+#[derive(Clone, Copy, Debug, PartialEq, Eq)]
+pub enum Step {
+    Part(usize),
+    ForeignToken(usize),
+    ForeignLayout(usize),
+}
+
+pub struct Built {
+    pub srv: Srv,
+    /// datagrams of the parts, part 0 is the main packet / offset 0
+    pub parts: Vec<Vec<u8>>,
+    pub foreign_token: Vec<Vec<u8>>,
+    pub foreign_layout: Vec<Vec<u8>>,
+    pub expected: ServerInfo,
+}
+
+fn legacy_parts(srv: &Srv, clients: &[Cl]) -> Vec<Vec<u8>> {
+    let mut parts = Vec::new();
+    let mut off = 0;
+    loop {
+        let end = (off + 24).min(clients.len());
+        parts.push(datagram(
+            Info664,
+            &PRE,
+            &render(false, &info_toks(Info664, srv, off as i32, 0, &clients[off..end])),
+        ));
+        off = end;
+        if off >= clients.len() {
+            break;
+        }
+    }
+    parts
+}
+
+fn extended_parts(srv: &Srv, clients: &[Cl], main_n: usize, sizes: &[u8]) -> Vec<Vec<u8>> {
+    let main_n = main_n.min(clients.len());
+    let mut parts = vec![datagram(
+        Info6Ex,
+        &PRE,
+        &render(false, &info_toks(Info6Ex, srv, 0, 0, &clients[..main_n])),
+    )];
+    let mut off = main_n;
+    let mut no = 1;
+    while off < clients.len() {
+        let want = sizes.get(no - 1).copied().unwrap_or(1).max(1) as usize;
+        // packet numbers 1..=63 fit the 64-bit mask; the last packet takes what is left
+        let end = if no == 63 { clients.len() } else { (off + want).min(clients.len()) };
+        parts.push(datagram(
+            Info6ExMore,
+            &PRE,
+            &render(false, &info_toks(Info6ExMore, srv, 0, no as i32, &clients[off..end])),
+        ));
+        off = end;
+        no += 1;
+    }
+    parts
+}
+
+pub fn build(c: &MergeCase) -> Built {
+    let n = c.clients.len() as i32;
+    let cap = if c.ex { 128 } else { 64 };
+    let max_clients = (n + c.slack as i32).min(cap).max(n);
+    let num_players = pick(c.num_players, n as usize + 1) as i32;
+    let max_players = num_players + pick(c.max_players, (max_clients - num_players) as usize + 1) as i32;
+    let srv = Srv {
+        token: c.token,
+        version: c.version.clone(),
+        name: c.name.clone(),
+        hostname: String::new(),
+        map: c.map.clone(),
+        map_crc: c.map_crc,
+        map_size: c.map_size & i32::MAX,
+        game_type: c.game_type.clone(),
+        flags: c.flags,
+        progression: 0,
+        skill: 0,
+        num_players,
+        max_players,
+        num_clients: n,
+        max_clients,
+    };
+    let main_n = pick(c.main_n, c.clients.len() + 1);
+    let parts = if c.ex {
+        extended_parts(&srv, &c.clients, main_n, &c.sizes)
+    } else {
+        legacy_parts(&srv, &c.clients)
+    };
+    let mut other = srv.clone();
+    other.token = srv.token.wrapping_add(1);
+    let (foreign_token, foreign_layout) = if c.ex {
+        // the same server answering in the legacy layout: counts within that layout's limits
+        let mut legacy = srv.clone();
+        legacy.max_clients = srv.max_clients.min(64);
+        legacy.num_clients = srv.num_clients.min(64);
+        legacy.max_players = srv.max_players.min(64);
+        legacy.num_players = srv.num_players.min(64);
+        (
+            extended_parts(&other, &c.clients, main_n, &c.sizes),
+            legacy_parts(&legacy, &c.clients[..c.clients.len().min(64)]),
+        )
+    } else {
+        (
+            legacy_parts(&other, &c.clients),
+            extended_parts(&srv, &c.clients, c.clients.len().min(3), &[5; 64]),
+        )
+    };
+    let mut clients: Vec<ClientInfo> = c
+        .clients
+        .iter()
+        .map(|cl| ClientInfo {
+            name: truncated_arraystring(&cl.name),
+            clan: truncated_arraystring(&cl.clan),
+            country: cl.country,
+            score: cl.score,
+            flags: if cl.flags == 0 { sb::CLIENTINFO_FLAG_SPECTATOR } else { 0 },
+        })
+        .collect();
+    clients.sort();
+    let expected = ServerInfo {
+        info_version: if c.ex { ServerInfoVersion::V6Ex } else { ServerInfoVersion::V664 },
+        token: srv.token,
+        version: truncated_arraystring(&srv.version),
+        name: truncated_arraystring(&srv.name),
+        hostname: None,
+        map: truncated_arraystring(&srv.map),
+        map_crc: if c.ex { Some(srv.map_crc as u32) } else { None },
+        map_size: if c.ex { Some(srv.map_size as u32) } else { None },
+        game_type: truncated_arraystring(&srv.game_type),
+        flags: srv.flags,
+        progression: None,
+        skill_level: None,
+        num_players,
+        max_players,
+        num_clients: n,
+        max_clients,
+        clients,
+    };
+    Built {
+        srv,
+        parts,
+        foreign_token,
+        foreign_layout,
+        expected,
+    }
+}
+
+pub fn schedule_of(c: &MergeCase, k: usize) -> Vec<Step> {
+    let mut order: Vec<usize> = (0..k).collect();
+    order.sort_by_key(|&i| (c.keys.get(i).copied().unwrap_or(0), i));
+    let mut s: Vec<Step> = order.into_iter().map(Step::Part).collect();
+    for &(pos, part) in &c.dups {
+        let at = pick(pos, s.len() + 1);
+        s.insert(at, Step::Part(pick(part, k)));
+    }
+    for &(pos, part, kind) in &c.foreign {
+        let at = pick(pos, s.len() + 1);
+        s.insert(
+            at,
+            if kind == 0 {
+                Step::ForeignToken(part as usize)
+            } else {
+                Step::ForeignLayout(part as usize)
+            },
+        );
+    }
+    s
+}
+
+/// Datagram -> part, the way the callers (stats-browser, httphook) do it.
+pub fn parse_part(d: &[u8]) -> Result<PartialServerInfo, String> {
+    let r = guard_s("parse_response on a model part", || sb::parse_response(d))?;
+    let p = match r {
+        Some(Response::Info664(x)) => guard_s("Info664Response::parse on a model part", || x.parse())?,
+        Some(Response::Info6Ex(x)) => guard_s("Info6ExResponse::parse on a model part", || x.parse())?,
+        Some(Response::Info6ExMore(x)) => guard_s("Info6ExMoreResponse::parse on a model part", || x.parse())?,
+        Some(other) => return Err(format!("model part was taken for a {} response", routed_kind(&other).name())),
+        None => return Err(format!("model part was not recognised as a response: [{}]", hex(&d[..d.len().min(48)]))),
+    };
+    p.ok_or_else(|| format!("well-formed model part was refused: [{}]", hex(&d[..d.len().min(200)])))
+}
+
+#[derive(Default, Debug)]
+pub struct MergeStats {
+    pub steps: usize,
+    pub repeats: usize,
+    pub foreign: usize,
+    pub completed_at: Option<usize>,
+    pub steps_after_complete: usize,
+}
+
+/// Run one schedule against the library and check the model after every step.
+pub fn run_schedule(b: &Built, schedule: &[Step]) -> Result<MergeStats, String> {
+    let k = b.parts.len();
+    let parsed: Vec<PartialServerInfo> = b.parts.iter().map(|d| parse_part(d)).collect::<Result<_, _>>()?;
+    // reference: in order, every part once
+    {
+        let mut r = parsed[0].clone();
+        for (i, p) in parsed.iter().enumerate().skip(1) {
+            let p = p.clone();
+            let res = guard_s("merge (in-order reference)", || r.merge(p))?;
+            ensure!(res.is_ok(), "in-order merge of part {} of {} failed: {:?}", i, k, res);
+        }
+        let got = guard_s("get_info (in-order reference)", || r.get_info().cloned())?;
+        ensure_eq!(
+            got.as_ref(),
+            Some(&b.expected),
+            "in-order duplicate-free merge of all {} parts does not give the model's info",
+            k
+        );
+    }
+    let mut st = MergeStats::default();
+    let mut have = vec![false; k];
+    let mut partial: Option<PartialServerInfo> = None;
+    let describe = |upto: usize| -> String {
+        let s: Vec<String> = schedule[..=upto]
+            .iter()
+            .map(|s| match s {
+                Step::Part(i) => format!("{}", i),
+                Step::ForeignToken(i) => format!("T{}", i),
+                Step::ForeignLayout(i) => format!("L{}", i),
+            })
+            .collect();
+        format!("{} parts, arrival order [{}]", k, s.join(","))
+    };
+    for (si, step) in schedule.iter().enumerate() {
+        let mut first_time = false;
+        let incoming = match *step {
+            Step::Part(i) => {
+                if have[i] {
+                    st.repeats += 1;
+                } else {
+                    first_time = true;
+                }
+                have[i] = true;
+                parsed[i].clone()
+            }
+            Step::ForeignToken(i) => {
+                if partial.is_none() {
+                    continue; // the callers only keep a first part whose token they asked for
+                }
+                st.foreign += 1;
+                parse_part(&b.foreign_token[i % b.foreign_token.len()])?
+            }
+            Step::ForeignLayout(i) => {
+                if partial.is_none() {
+                    continue;
+                }
+                st.foreign += 1;
+                parse_part(&b.foreign_layout[i % b.foreign_layout.len()])?
+            }
+        };
+        st.steps += 1;
+        match &mut partial {
+            None => partial = Some(incoming),
+            Some(p) => {
+                let res = guard(|| p.merge(incoming)).map_err(|e| format!("merge: {} ({})", e, describe(si)))?;
+                // (what merge answers for a repeated or foreign part is not part of the property - only the state is)
+                if let (true, Err(e)) = (first_time, &res) {
+                    return Err(format!("merge refused a part that had not been merged before with {:?} ({})", e, describe(si)));
+                }
+            }
+        }
+        let p = partial.as_mut().unwrap();
+        let got = guard(|| p.get_info().cloned()).map_err(|e| format!("get_info: {} ({})", e, describe(si)))?;
+        let all = have.iter().all(|&h| h);
+        if all != got.is_some() {
+            let missing: Vec<usize> = (0..k).filter(|&i| !have[i]).collect();
+            return Err(if all {
+                format!(
+                    "every part has been merged at least once but the info is not reported complete ({})",
+                    describe(si)
+                )
+            } else {
+                format!(
+                    "info reported complete although parts {:?} have not been merged ({}); reported: {:?}",
+                    missing,
+                    describe(si),
+                    got
+                )
+            });
+        }
+        if let Some(info) = got {
+            ensure_eq!(info, b.expected, "complete info differs from the model ({})", describe(si));
+            if st.completed_at.is_none() {
+                st.completed_at = Some(si);
+            } else {
+                st.steps_after_complete += 1;
+            }
+        }
+    }
+    if let Some(mut p) = partial {
+        let complete = have.iter().all(|&h| h);
+        let taken = guard_s("take_info at the end of the schedule", || p.take_info())?;
+        ensure_eq!(
+            taken.as_ref(),
+            if complete { Some(&b.expected) } else { None },
+            "take_info at the end of the schedule"
+        );
+        let again = parsed[0].clone();
+        guard_s("merge/get_info after take_info", move || {
+            let _ = p.merge(again);
+            let _ = p.get_info().is_some();
+        })?;
+    }
+    Ok(st)
+}
+
+fn has_repeat(schedule: &[Step]) -> bool {
+    let mut seen = Vec::new();
+    for s in schedule {
+        if let Step::Part(i) = s {
+            if seen.contains(i) {
+                return true;
+            }
+            seen.push(*i);
+        }
+    }
+    false
+}
+
+fn check_merge_case(c: &MergeCase, skip_repeats: bool) -> PResult {
+    let b = build(c);
+    let k = b.parts.len();
+    let mut schedule = schedule_of(c, k);
+    let mut excluded = false;
+    if skip_repeats && has_repeat(&schedule) {
+        // known finding: take the repeats out, the rest of the schedule is still checked
+        let mut seen = vec![false; k];
+        schedule.retain(|s| match s {
+            Step::Part(i) => !std::mem::replace(&mut seen[*i], true),
+            _ => true,
+        });
+        excluded = true;
+    }
+    let st = run_schedule(&b, &schedule)?;
+    let order: Vec<usize> = schedule
+        .iter()
+        .filter_map(|s| if let Step::Part(i) = s { Some(*i) } else { None })
+        .fold(Vec::new(), |mut v, i| {
+            if !v.contains(&i) {
+                v.push(i);
+            }
+            v
+        });
+    let identity = order.iter().enumerate().all(|(a, b)| a == *b);
+    Ok(Outcome::nt(k >= 3 && (!identity || st.repeats > 0))
+        .class(if c.ex { "extended" } else { "legacy_64" })
+        .class_if(excluded, "repeats_removed_known_finding")
+        .class_if(k == 1, "parts_1")
+        .class_if(k == 2, "parts_2")
+        .class_if(k == 3, "parts_3")
+        .class_if((4..=8).contains(&k), "parts_4_8")
+        .class_if((9..=32).contains(&k), "parts_9_32")
+        .class_if((33..=63).contains(&k), "parts_33_63")
+        .class_if(k == 64, "parts_64_max")
+        .class_if(!identity, "permuted")
+        .class_if(order.first() != Some(&0), "main_not_first")
+        .class_if(st.repeats > 0, "repeats")
+        .class_if(st.repeats >= 4, "repeats_4_plus")
+        .class_if(st.foreign > 0, "foreign_parts")
+        .class_if(st.steps_after_complete > 0, "steps_after_complete")
+        .class_if(c.clients.len() == 64, "clients_64")
+        .class_if(c.clients.is_empty(), "clients_0"))
+}
+
+fn honest_text(max: usize) -> BoxedStrategy<String> {
+    prop_oneof![
+        6 => proptest::string::string_regex(&format!("[a-zA-Z0-9 _.\\-]{{0,{}}}", max)).unwrap(),
+        1 => (0..=max + 3, proptest::sample::select(vec!["\u{e9}", "\u{20ac}", "\u{1f600}"])).prop_map(|(n, ch)| format!("{}{}", "a".repeat(n), ch)),
+    ]
+    .boxed()
+}
+
+fn honest_client() -> impl Strategy<Value = Cl> {
+    prop_oneof![
+        5 => (honest_text(15), honest_text(11), -1i32..300, prop_oneof![4 => -20i32..2000, 1 => any::<i32>()], 0i32..=1).prop_map(
+            |(name, clan, country, score, flags)| Cl {
+                name,
+                clan,
+                country,
+                score,
+                flags,
+            }
+        ),
+        1 => (0usize..3).prop_map(|i| Cl {
+            name: ["(connecting)", "nameless tee", ""][i].to_string(),
+            clan: String::new(),
+            country: -1,
+            score: 0,
+            flags: (i == 1) as i32,
+        }),
+    ]
+}
+
+fn merge_strategy(with_repeats: bool) -> impl Strategy<Value = MergeCase> {
+    let shape = prop_oneof![
+        // (extended, clients, main_n, sizes)
+        2 => (proptest::collection::vec(honest_client(), 0..=24)).prop_map(|c| (false, c, 0u16, vec![])),
+        3 => (proptest::collection::vec(honest_client(), 25..=48)).prop_map(|c| (false, c, 0u16, vec![])),
+        5 => (proptest::collection::vec(honest_client(), 49..=64)).prop_map(|c| (false, c, 0u16, vec![])),
+        6 => (proptest::collection::vec(honest_client(), 0..=12), any::<u16>(), proptest::collection::vec(1u8..=4, 64))
+            .prop_map(|(c, m, s)| (true, c, m, s)),
+        5 => (proptest::collection::vec(honest_client(), 0..=64), any::<u16>(), proptest::collection::vec(1u8..=30, 64))
+            .prop_map(|(c, m, s)| (true, c, m, s)),
+        3 => (proptest::collection::vec(honest_client(), 30..=64), any::<u16>(), proptest::collection::vec(1u8..=3, 64))
+            .prop_map(|(c, m, s)| (true, c, m, s)),
+        2 => (proptest::collection::vec(honest_client(), 36..=64), any::<u16>(), proptest::collection::vec(1u8..=2, 64))
+            .prop_map(|(c, m, s)| (true, c, (m >> 3), s)),
+        // the maximum: 64 parts (main + packet numbers 1..=63)
+        2 => (proptest::collection::vec(honest_client(), 63..=64), 0u16..=1500, Just(vec![1u8; 64]))
+            .prop_map(|(c, m, s)| (true, c, m, s)),
+    ];
+    let dups = if with_repeats {
+        prop_oneof![
+            2 => Just(Vec::new()).boxed(),
+            4 => proptest::collection::vec((any::<u16>(), any::<u16>()), 1..=3).boxed(),
+            3 => proptest::collection::vec((any::<u16>(), any::<u16>()), 4..=12).boxed(),
+            1 => proptest::collection::vec((any::<u16>(), any::<u16>()), 30..=190).boxed(),
+        ]
+        .boxed()
+    } else {
+        Just(Vec::new()).boxed()
+    };
+    (
+        shape,
+        (any::<i32>(), honest_text(32), honest_text(64), honest_text(32), honest_text(32)),
+        (any::<i32>(), any::<i32>(), any::<i32>(), 0u8..6, any::<u16>(), any::<u16>()),
+        prop_oneof![
+            1 => Just(vec![0u32; 64]),
+            6 => proptest::collection::vec(any::<u32>(), 64),
+            1 => Just((0..64u32).rev().collect::<Vec<_>>()),
+        ],
+        dups,
+        prop_oneof![
+            3 => Just(Vec::new()).boxed(),
+            2 => proptest::collection::vec((any::<u16>(), 0u16..64, 0u8..=1), 1..=3).boxed(),
+        ],
+    )
+        .prop_map(
+            |((ex, clients, main_n, sizes), (token, version, name, map, game_type), (map_crc, map_size, flags, slack, np, mp), keys, dups, foreign)| MergeCase {
+                ex,
+                token,
+                version,
+                name,
+                map,
+                game_type,
+                map_crc,
+                map_size,
+                flags,
+                clients,
+                slack,
+                num_players: np,
+                max_players: mp,
+                main_n,
+                sizes,
+                keys,
+                dups,
+                foreign,
+            },
+        )
+}
+
+// exhaustive: every arrival sequence of length <= L over the k parts plus one foreign part
+
+#[derive(Clone, Debug)]
+struct SeqPlan {
+    ex: bool,
+    k: usize,
+    variant: usize,
+    max_len: usize,
+}
+
+fn seq_case(p: &SeqPlan) -> MergeCase {
+    // number of clients so that exactly k parts result
+    let (n, main_n, sizes): (usize, u16, Vec<u8>) = if p.ex {
+        let main = if p.variant == 0 { 0 } else { 2 };
+        let per = if p.variant == 0 { 1 } else { 2 };
+        (main + (p.k - 1) * per, pick_inverse(main, main + (p.k - 1) * per + 1), vec![per as u8; 64])
+    } else {
+        let n = match (p.k, p.variant) {
+            (1, 0) => 0,
+            (1, _) => 24,
+            (2, 0) => 25,
+            (2, _) => 48,
+            (_, 0) => 49,
+            _ => 64,
+        };
+        (n, 0, vec![])
+    };
+    MergeCase {
+        ex: p.ex,
+        token: 0x1234 + p.k as i32,
+        version: "0.6.4, 16.1".into(),
+        name: "exhaustive schedules".into(),
+        map: "Kobra 4".into(),
+        game_type: "DDraceNetwork".into(),
+        map_crc: -2,
+        map_size: 123456,
+        flags: 0,
+        clients: (0..n).map(|i| if i % 5 == 4 { base_client(3) } else { base_client(i) }).collect(),
+        slack: 1,
+        num_players: 0x8000,
+        max_players: 0x8000,
+        main_n,
+        sizes,
+        keys: vec![],
+        dups: vec![],
+        foreign: vec![],
+    }
+}
+
+/// smallest 16-bit index that `pick` maps to `want` in `0..len`
+fn pick_inverse(want: usize, len: usize) -> u16 {
+    let mut i = ((want << 16) / len) as u32;
+    while pick(i as u16, len) < want {
+        i += 1;
+    }
+    i as u16
+}
+
+fn seq_count(alphabet: u64, max_len: usize) -> u64 {
+    (0..=max_len as u32).map(|l| alphabet.pow(l)).sum()
+}
+
+fn seq_decode(alphabet: u64, max_len: usize, mut idx: u64) -> Vec<usize> {
+    for l in 0..=max_len as u32 {
+        let n = alphabet.pow(l);
+        if idx < n {
+            let mut v = Vec::new();
+            for _ in 0..l {
+                v.push((idx % alphabet) as usize);
+                idx /= alphabet;
+            }
+            return v;
+        }
+        idx -= n;
+    }
+    unreachable!()
+}
+
+fn seq_plans(thorough: bool) -> Blocks<SeqPlan> {
+    let mut items = Vec::new();
+    let add = thorough as usize * 2;
+    for variant in 0..2 {
+        for k in 1..=3usize {
+            let max_len = (if k == 3 { 6 } else { 7 }) + add;
+            let p = SeqPlan {
+                ex: false,
+                k,
+                variant,
+                max_len,
+            };
+            items.push((p, seq_count(k as u64 + 1, max_len)));
+        }
+        for k in 1..=(if thorough { 6usize } else { 5 }) {
+            let max_len = match k {
+                1..=3 => 7 + add,
+                4 => 6 + add,
+                5 => 5 + add,
+                _ => 6,
+            };
+            let p = SeqPlan {
+                ex: true,
+                k,
+                variant,
+                max_len,
+            };
+            items.push((p, seq_count(k as u64 + 1, max_len)));
+        }
+    }
+    Blocks::new(items)
+}
+
+fn seq_schedule(p: &SeqPlan, sub: u64) -> Vec<Step> {
+    seq_decode(p.k as u64 + 1, p.max_len, sub)
+        .into_iter()
+        .map(|d| if d == p.k { Step::ForeignToken(0) } else { Step::Part(d) })
+        .collect()
+}
+
+// ---------------------------------------------------------------------------
+// Probes for the known findings
+
+fn probe_dup() -> Result<(), String> {
+    let mut c = seq_case(&SeqPlan {
+        ex: true,
+        k: 2,
+        variant: 0,
+        max_len: 3,
+    });
+    c.clients.truncate(1);
+    let b = build(&c);
+    ensure_eq!(b.parts.len(), 2, "probe construction");
+    run_schedule(&b, &[Step::Part(0), Step::Part(1), Step::Part(1)]).map(|_| ())
+}
+
+fn probe_pkt64() -> Result<(), String> {
+    let toks = info_toks(Info6ExMore, &base_srv(Info6ExMore, 0), 0, 64, &[]);
+    check_datagram(&datagram(Info6ExMore, &PRE, &render(false, &toks)))
+}
+
+fn probe_slot64() -> Result<(), String> {
+    let toks = info_toks(Info664, &base_srv(Info664, 1), 64, 0, &[base_client(0)]);
+    check_datagram(&datagram(Info664, &PRE, &render(false, &toks)))
+}
+
+// ---------------------------------------------------------------------------
+
+pub fn run(ctx: &Ctx) {
+    ctx.set_rule(
+        "totality: model-server datagrams of all 13 response kinds - every truncation and single-byte patch of base datagrams, \
+         every numeric field swept over 46 boundary values, count quadruples / offset x clients / packet number x clients \
+         products, proptest-generated hostile field lists (boundary integers, malformed number texts, invalid UTF-8, deleted / \
+         duplicated / inserted fields, cut, patched) and random bytes behind real headers (non-trivial = parse_response \
+         recognised the datagram and a value was returned or more than 24 bytes were parsed). merging: every arrival sequence \
+         up to length 5..7 over the 1..5 parts (plus a part of another token) of legacy and extended infos, and generated \
+         schedules (random permutation, 0..190 repeats, foreign parts) over infos of 0..64 clients in 1..64 parts, model \
+         checked after every step (non-trivial = >= 3 parts and not the identity order or a repeated part; distinct by case hash)",
+    );
+    ctx.assume("the expected strings are cut to the library's field widths with libtw2_common::str::truncated_arraystring (truncation is not part of this property)");
+    ctx.assume("an iex+ packet of a real server carries at least one client; the main packet and every dtsf packet carry the full header");
+    ctx.assume("a returned info must satisfy the count sanity check the parser documents (0 <= players <= clients <= max_clients <= version maximum)");
+
+    let excl = Excl {
+        slot64: ctx.known_open(KEY_SLOT64),
+        pkt64: ctx.known_open(KEY_PKT64),
+    };
+    let skip_repeats = ctx.known_open(KEY_DUP);
+
+    if skip_repeats {
+        ctx.note(format!(
+            "known finding {}: schedules are generated without repeated parts (merge_schedules) / sequences with a repeated part are skipped and counted in excluded_known (merge_all_sequences)",
+            KEY_DUP
+        ));
+    }
+    if excl.slot64 || excl.pkt64 {
+        ctx.note("known shift findings: dtsf payloads that can reach client slot 64 / iex+ payloads announcing packet 64 are not handed to the library (counted in excluded_known for the exhaustive sections, class excluded_known in the generated ones)".to_string());
+    }
+    ctx.probe(KEY_DUP, probe_dup);
+    ctx.probe(KEY_PKT64, probe_pkt64);
+    ctx.probe(KEY_SLOT64, probe_slot64);
+
+    let tally = Tally::new();
+
+    // every truncation of base datagrams of all kinds
+    {
+        let bases = base_datagrams(&[0, 1, 2, 3, 17, 64]);
+        let blocks = Blocks::new(bases.into_iter().map(|(k, d)| { let n = d.len() as u64 + 1; ((k, d), n) }).collect());
+        ctx.exhaustive(
+            "truncations",
+            blocks.total,
+            |i| {
+                let ((_, d), cut) = blocks.get(i);
+                tally.run(&d[..cut as usize], excl)
+            },
+            |i| {
+                let ((k, d), cut) = blocks.get(i);
+                json!({"kind": k.name(), "datagram": hex(&d[..cut as usize])})
+            },
+        );
+    }
+    // every single-byte patch
+    {
+        const PATCH: [u8; 6] = [0x00, b'-', b'9', 0x80, 0xff, 0x21];
+        let bases = base_datagrams(&[0, 2, 17]);
+        let blocks = Blocks::new(
+            bases
+                .into_iter()
+                .map(|(k, d)| { let n = d.len() as u64 * PATCH.len() as u64; ((k, d), n) })
+                .collect(),
+        );
+        let make = |i: u64| -> (Kind, Vec<u8>) {
+            let ((k, d), sub) = blocks.get(i);
+            let mut d = d.clone();
+            d[(sub / PATCH.len() as u64) as usize] = PATCH[(sub % PATCH.len() as u64) as usize];
+            (*k, d)
+        };
+        ctx.exhaustive(
+            "byte_patches",
+            blocks.total,
+            |i| tally.run(&make(i).1, excl),
+            |i| {
+                let (k, d) = make(i);
+                json!({"kind": k.name(), "datagram": hex(&d)})
+            },
+        );
+    }
+    // every numeric field over the boundary values
+    {
+        let mut items = Vec::new();
+        for kind in INFO_KINDS {
+            for n in [0usize, 1, 2, 16, 24, 64] {
+                let l = base_layout(kind, n);
+                for pos in int_positions(&l) {
+                    items.push(((kind, n, pos), B.len() as u64));
+                }
+            }
+        }
+        let blocks = Blocks::new(items);
+        let make = |i: u64| -> (Kind, Vec<u8>, String) {
+            let (&(kind, n, pos), sub) = blocks.get(i);
+            let l = base_layout(kind, n);
+            let v = B[sub as usize];
+            let d = datagram(kind, &PRE, &render(kind.packed_ints(), &set_int(&l, &[(pos, v)])));
+            (kind, d, format!("{} with {} clients, field #{} ({:?}) = {}", kind.name(), n, pos, l[pos].0, v))
+        };
+        ctx.exhaustive(
+            "numeric_single",
+            blocks.total,
+            |i| tally.run(&make(i).1, excl),
+            |i| {
+                let (_, d, what) = make(i);
+                json!({"what": what, "datagram": hex(&d[..d.len().min(300)])})
+            },
+        );
+    }
+    {
+        let blocks = pair_plans(!ctx.quick());
+        let make = |i: u64| -> (Vec<u8>, String) {
+            let (plan, sub) = blocks.get(i);
+            let (kind, toks, what) = pair_datagram(plan, sub);
+            (datagram(kind, &PRE, &render(kind.packed_ints(), &toks)), what)
+        };
+        ctx.exhaustive(
+            "numeric_products",
+            blocks.total,
+            |i| tally.run(&make(i).0, excl),
+            |i| {
+                let (d, what) = make(i);
+                json!({"what": what, "datagram": hex(&d[..d.len().min(300)])})
+            },
+        );
+    }
+    tally.flush(ctx);
+
+    ctx.prop("hostile_datagrams", ctx.n(100_000, 4_000_000), dg_strategy, |c: &DgCase| check_dg_case(c, excl));
+    ctx.prop("random_datagrams", ctx.n(60_000, 1_500_000), random_datagram, |d: &Vec<u8>| {
+        let st = check_datagram_tolerant(d, excl)?;
+        let o = Outcome::nt(st.routed.is_some() && !st.excluded)
+            .class_if(st.excluded, "excluded_known")
+            .class_if(st.value && st.routed.map(|k| k.is_info()).unwrap_or(false), "info_value")
+            .class_if(st.cross_values > 0 && st.routed.is_none(), "unrouted_payload_value");
+        Ok(match st.routed {
+            Some(k) => o.class(k.name()),
+            None => o.class("not_routed"),
+        })
+    });
+
+    // merging: all short arrival sequences
+    {
+        let blocks = seq_plans(!ctx.quick());
+        let built: Vec<Built> = blocks.items.iter().map(|(p, _)| build(&seq_case(p))).collect();
+        for ((p, _), b) in blocks.items.iter().zip(&built) {
+            assert_eq!(b.parts.len(), p.k, "exhaustive plan {:?} must have exactly k parts", p);
+        }
+        let excluded = AtomicU64::new(0);
+        let plan_index = |i: u64| -> (usize, u64) { blocks.locate(i) };
+        ctx.exhaustive(
+            "merge_all_sequences",
+            blocks.total,
+            |i| {
+                let (pi, sub) = plan_index(i);
+                let p = &blocks.items[pi].0;
+                let s = seq_schedule(p, sub);
+                if skip_repeats && has_repeat(&s) {
+                    excluded.fetch_add(1, Ordering::Relaxed);
+                    return Ok(false);
+                }
+                let st = run_schedule(&built[pi], &s)?;
+                let parts: Vec<usize> = s.iter().filter_map(|x| if let Step::Part(i) = x { Some(*i) } else { None }).collect();
+                let identity = parts.iter().enumerate().all(|(a, b)| a == *b);
+                Ok(p.k >= 3 && parts.len() >= 3 && (!identity || st.repeats > 0))
+            },
+            |i| {
+                let (pi, sub) = plan_index(i);
+                let p = &blocks.items[pi].0;
+                json!({"plan": format!("{:?}", p), "schedule": format!("{:?}", seq_schedule(p, sub))})
+            },
+        );
+        ctx.add_excluded_known(excluded.into_inner());
+    }
+    ctx.prop(
+        "merge_schedules",
+        ctx.n(20_000, 600_000),
+        || merge_strategy(!skip_repeats),
+        |c: &MergeCase| check_merge_case(c, skip_repeats),
+    );
 }
